@@ -12,10 +12,18 @@ import os
 import shutil
 import subprocess
 
-PKG = "c20pkg"
+PKG = "c20pkg"          # the public package: re-exports from its private sibling (griffe/_griffe layout)
+PRIV = "_c20pkg"        # the private package, loaded on demand by alias resolution
 _run = subprocess.run  # bound before the worker wraps subprocess.run
 
-API1 = '''"""Package docstring (API 1)."""
+PUBLIC = '''"""Public package: everything is re-exported from the private sibling."""
+
+from _c20pkg import f, g
+
+__all__ = ["f", "g"]
+'''
+# the breaking change of API 2 lives in the PRIVATE package only: parameter `b` of `f` is removed
+API1 = '''"""Private implementation (API 1)."""
 
 
 def f(a, b=1):
@@ -24,15 +32,20 @@ def f(a, b=1):
 
 
 def g():
-    """Function g (removed in API 2)."""
+    """Function g."""
     return 0
 '''
-API2 = '''"""Package docstring (API 2)."""
+API2 = '''"""Private implementation (API 2)."""
 
 
-def f(a, b=1):
+def f(a):
     """Function f."""
-    return a + b
+    return a
+
+
+def g():
+    """Function g."""
+    return 0
 '''
 SUB = '''"""Submodule."""
 
@@ -58,7 +71,7 @@ GIT_ENV = {
     "GIT_COMMITTER_EMAIL": "h@example.org",
 }
 
-SOURCES = {"v1": API1, "x": API1, "feat/x": API2, "HEAD": API2}
+F_PARAMS = {1: ["a", "b"], 2: ["a"]}      # parameters of the re-exported f per API version
 
 
 def git(repo: str, *args: str, date: int | None = None, check: bool = True) -> str:
@@ -92,14 +105,15 @@ def build_template(dst: str, ignored: bool) -> str:
     git(dst, "add", "-A")
     git(dst, "commit", "-q", "-m", "c2: syntax error", date=2)
     git(dst, "tag", "bad")
-    _write(os.path.join(dst, PKG, "__init__.py"), API1)
+    _write(os.path.join(dst, PKG, "__init__.py"), PUBLIC)
+    _write(os.path.join(dst, PRIV, "__init__.py"), API1)
     _write(os.path.join(dst, PKG, "sub.py"), SUB)
     git(dst, "add", "-A")
     git(dst, "commit", "-q", "-m", "c3: API 1", date=3)
     git(dst, "tag", "v1")
     git(dst, "branch", "x")
     git(dst, "branch", "griffe-x")
-    _write(os.path.join(dst, PKG, "__init__.py"), API2)
+    _write(os.path.join(dst, PRIV, "__init__.py"), API2)
     git(dst, "add", "-A")
     git(dst, "commit", "-q", "-m", "c4: API 2", date=4)
     git(dst, "branch", "feat/x")
